@@ -14,3 +14,17 @@ let () =
   (* o.nsortho K P tol : orthonormal columns (aggregates with >= K members) *)
   reg "o.nsortho" (fun t -> let k = t_i t in let p = t_crs t in let tol = t_q t in ok (PmisSpec.ns_orthonormal_ok sc k p tol));
   reg "o.nssmall" (fun t -> let k = t_i t in let p = t_crs t in string_of_int (PmisSpec.ns_small_aggregates sc k p))
+
+(* m.pmis A parts eps2 : the PMIS model of Pmis.v (block_size 1, no near-null space) on the strength pattern of A.
+   Prints the ranks' aggregate counts, the column of P_tent of every unknown (-1 = left out) and the strength pattern
+   (rows sorted by column), in the format the C12 property module builds from the ranks' reports. *)
+let () =
+  reg "m.pmis" (fun t -> let a = t_crs t in let parts = t_ivec t in let eps2 = t_q t in
+    let g = Pmis.conn sc (box (parse_q "0")) a eps2 in
+    let n = List.length a.Crs.rows in
+    let pat = "{" ^ string_of_int n ^ " " ^ string_of_int n ^
+              String.concat "" (List.map (fun r -> " |" ^ String.concat "" (List.map (fun c -> " " ^ string_of_int c) (List.sort compare r))) g) ^ "}" in
+    match Pmis.pmis_columns parts g with
+    | None -> "STUCK conn=" ^ pat
+    | Some (cols, nas) ->
+      "na=" ^ show_ivec nas ^ " col=" ^ show_ivec (List.map (function None -> -1 | Some c -> c) cols) ^ " conn=" ^ pat)
